@@ -286,6 +286,11 @@ class DSession:
         """
         if self.shuttingdown:
             return
+        assert self.sched is not None
+        if node not in self.sched.nodes:
+            # told to shut down when it became ready, before a crash revoked
+            # the shutdown: the scheduler does not know it
+            return
         self.config.hook.pytest_xdist_node_collection_finished(node=node, ids=ids)
         # tell session which items were effectively collected otherwise
         # the controller node will finish the session with EXIT_NOTESTSCOLLECTED
